@@ -349,6 +349,14 @@ func gen(c *trlib.Ctx) error {
 	deadline := hi != nil && suffixIndex(callsInOrder(hi), "SetReadDeadline") >= 0
 	add("reader_sets_read_deadline", "handleIncoming renews the read deadline from heartbeatTimeout (C14)", deadline, "no SetReadDeadline call in handleIncoming")
 
+	// 11. closing a channel stops its consumers before it returns their unsettled deliveries: a consumer that is
+	// still running when its deliveries go back to the queue takes them again onto the channel that is being closed
+	cl := trlib.FuncDecl(ch, "Channel.close")
+	calls = callsInOrder(cl)
+	lastStop, requeue := lastSuffixIndex(calls, ".Stop"), suffixIndex(calls, "handleReject")
+	add("close_stops_consumers_before_requeue", "Channel.close: every consumer is stopped before handleReject returns the unsettled deliveries (C14 C01)",
+		cl != nil && lastStop >= 0 && requeue > lastStop, fmt.Sprintf("last Stop at call %d, handleReject at call %d", lastStop, requeue))
+
 	// emit
 	sort.SliceStable(facts, func(i, j int) bool { return false })
 	var sb strings.Builder
